@@ -13,7 +13,7 @@ import random
 from .. import gen
 from ..common import Harness, begin_run, ref_outcomes
 from ..rng import run_rng, stable_hash, weighted
-from ..trace import (PCT, Deadlock, HarnessError, Placed, RandomWalk, Scheduler,
+from ..trace import (HOT_FUNCS, PCT, Deadlock, HarnessError, Placed, RandomWalk, Scheduler,
                      Sim, SimRLock, StepCap)
 
 ID = "C19"
@@ -138,7 +138,7 @@ def solo_trace(scen, tid):
     h = Harness(scen["spec"], scen["regs"])
     for c in scen["prewarm"]:
         h.w.call("f", c)
-    sim = Sim(trace_world=True)
+    sim = Sim(trace_world=True, opcode_funcs=HOT_FUNCS if scen.get("opcode") else None)
     sim.trace_log = []
     sim.run(lambda: [h.w.call("f", c) for c in scen["threads"][tid]])
     return sim.trace_log
@@ -188,7 +188,8 @@ def execute(scen):
     h = Harness(spec, regs)
     for c in scen["prewarm"]:
         h.w.call("f", c)
-    sim = Sim(trace_world=True, step_cap=600_000)
+    sim = Sim(trace_world=True, step_cap=600_000,
+              opcode_funcs=HOT_FUNCS if scen.get("opcode") else None)
     n = len(scen["threads"])
     sched = Scheduler(sim, n, strategy=strategy, script=script)
     results = [[None] * len(ops) for ops in scen["threads"]]
@@ -318,6 +319,9 @@ def run_job(job):
     else:
         for index in range(job["index"], job["index"] + job["count"]):
             scen = seeded_scenario(job["seed"], index)
+            if job.get("opcode_every") and index % job["opcode_every"] == 0:
+                scen["opcode"] = True  # bytecode-granularity yield points in the publishing functions
+                stats["opcode_runs"] = stats.get("opcode_runs", 0) + 1
             r = run_one(scen, stats, violations)
             dig = (dig * 1000003 + r["digest"]) & ((1 << 61) - 1)
             if not samples and r["nswitch"]:
@@ -340,11 +344,11 @@ def jobs(tier, seed):
                            "stride": stride, "part": part, "all_visits": tier == "thorough"}
     if tier == "quick":
         for i in range(0, 1600, 25):
-            yield {"kind": "seeded", "seed": seed, "index": i, "count": 25}
+            yield {"kind": "seeded", "seed": seed, "index": i, "count": 25, "opcode_every": 8}
     else:
         i = 0
         while True:
-            yield {"kind": "seeded", "seed": seed, "index": i, "count": 25}
+            yield {"kind": "seeded", "seed": seed, "index": i, "count": 25, "opcode_every": 3}
             i += 25
 
 
@@ -424,6 +428,7 @@ def coverage(agg):
         "total_switches": int(agg.get("switches", 0)),
         "simulated_steps": int(agg.get("steps", 0)),
         "runs_by_strategy": agg.get("by_strategy", {}),
+        "runs_at_bytecode_granularity": int(agg.get("opcode_runs", 0)),
         "fixed_single_preemption_runs_by_shape": agg.get("by_shape", {}),
         "reach_probes_runs_hit": agg.get("probes", {}),
         "fault_kinds": "none injected in this check (schedules only)",
